@@ -89,14 +89,15 @@ Definition rel_branch (s : sw) (t k : Z) : branch :=
   match lookup (sw_tags s) t with
   | None => BUnknownTag
   | Some r =>
-      if t_low r =? k then BLowest
+      (* lowest == sequence_number < max_sequence *)
+      if (t_low r =? k) && (k <? t_next r) then BLowest
       else if (t_low r <? k) && (k <? t_next r) then BPending
       else BBadSeq
   end.
 
-(** release, utils.py:719-755 *)
-Definition sw_release (s : sw) (t k : Z) : res * sw :=
-  match rel_branch s t k with
+(** The body of release for a given branch. *)
+Definition sw_release_with (br : branch) (s : sw) (t k : Z) : res * sw :=
+  match br with
   | BUnknownTag => (RValErr, s)
   | BBadSeq => (RValErr, s)
   | BLowest =>
@@ -109,6 +110,25 @@ Definition sw_release (s : sw) (t k : Z) : res * sw :=
       (ROk, mkSW (sw_count s)
                  (upd (sw_tags s) t (mkTag (t_next r) (t_low r) (sort_desc (t_pend r ++ [k])))))
   end.
+
+(** release, utils.py:719-755 *)
+Definition sw_release (s : sw) (t k : Z) : res * sw :=
+  sw_release_with (rel_branch s t k) s t k.
+
+(** Record of the code before commit 74b8319 (finding F13): the first branch
+    tested only [lowest == sequence_number].  Used by no other definition;
+    props/C12.v keeps the machine-checked witness of what the repair changed. *)
+Definition rel_branch_old (s : sw) (t k : Z) : branch :=
+  match lookup (sw_tags s) t with
+  | None => BUnknownTag
+  | Some r =>
+      if t_low r =? k then BLowest
+      else if (t_low r <? k) && (k <? t_next r) then BPending
+      else BBadSeq
+  end.
+
+Definition sw_release_old (s : sw) (t k : Z) : res * sw :=
+  sw_release_with (rel_branch_old s t k) s t k.
 
 (** Histories. *)
 Inductive op := OAcq (t : Z) (blocking : bool) | ORel (t k : Z).
